@@ -1034,10 +1034,13 @@ def _arg_to_tensordict(arg):
 
     if _is_tensorclass(type(arg)):
         return arg._tensordict
-    elif isinstance(arg, (tuple, list)) and all(
+    elif isinstance(arg, (tuple, list)) and any(
         _is_tensorclass(type(item)) for item in arg
     ):
-        return type(arg)(item._tensordict for item in arg)
+        # the other items (plain tensordicts in a mixed operand list) are kept as they are
+        return type(arg)(
+            item._tensordict if _is_tensorclass(type(item)) else item for item in arg
+        )
     return arg
 
 
